@@ -30,11 +30,12 @@ def zip2 {α} (y x : Res α) : Res (α × α) := do
 
 /-! ## `Tiles`  (roi.py:115-231) -/
 
-/-- exact `ceil(N / n)` for `n ≠ 0` (the code computes `int(math.ceil(float(N) / n))`). -/
+/-- exact `ceil(N / n)` for `n ≠ 0`: `-(-N // n)` (as repaired: integer arithmetic instead of
+`int(math.ceil(float(N) / n))`, which is off beyond `2^53`). -/
 def ceilDiv (N n : Int) : Int :=
   if n > 0 then (N + n - 1) / n else ((-N) + (-n) - 1) / (-n)
 
-/-- `Tiles.__init__`: number of tiles on one axis; `float(N)/0` raises. -/
+/-- `Tiles.__init__`: number of tiles on one axis; `N // 0` raises `ZeroDivisionError`. -/
 def mkCount (N n : Int) : Res Int :=
   if n = 0 then .error .zeroDiv else .ok (ceilDiv N n)
 
